@@ -1546,3 +1546,4 @@ UNITS = [
     ("C16.BASIC.LG_GAMMA_OSMOTIC_report_what_the_model_computed_for_that_species", unit_basic_readouts),
 ]
 from props.c16_ext2 import UNITS as _U2; UNITS = UNITS + _U2
+from props.c16_ext3 import UNITS as _U3; UNITS = UNITS + _U3
